@@ -306,6 +306,11 @@ class _rewrite_captured_vars(ast.NodeTransformer):
         # Translate the value via our usual process
         value = self.visit(node.value)
 
+        # A captured plain value stays frozen as the receiver even when the attribute itself is
+        # not folded (a method call on it); classes and modules stay by name.
+        if isinstance(value, ast.Constant) and not isinstance(value.value, (type, ModuleType)):
+            node.value = value
+
         # Now, if it comes back a constant, can we do a lookup to resolve it?
         if isinstance(value, ast.Constant) and hasattr(value.value, node.attr):
             new_value = getattr(value.value, node.attr)
